@@ -663,7 +663,7 @@ def g_resize(rng):
 
 
 # ---------------------------------------------------------------------------
-def _nest_chain(rng, depth_to, ctxs=("loky",), timeouts=(10,), fork_at=None, level=1):
+def _nest_chain(rng, depth_to, ctxs=("loky",), timeouts=(10,), fork_at=None, level=1, variants=False):
     """Spec of a nested task that builds an executor at worker level `level` and
     recurses until depth_to (inclusive: the innermost one only tries to construct)."""
     kind = rng.choice(["reusable", "plain"])
@@ -675,12 +675,25 @@ def _nest_chain(rng, depth_to, ctxs=("loky",), timeouts=(10,), fork_at=None, lev
         kind = "plain"
         kw["context"] = "fork"
     sub = [{"k": "probe", "what": ["depth", "pid"]}]
+    if variants and rng.random() < 0.5:
+        # the nested pool's own manager thread has to respawn its workers: idle timeout shorter than the pickling of the next task
+        kw["timeout"] = 0.05
+        kw["max_workers"] = 1
+        sub += [{"k": "probe", "what": ["depth", "pid"], "arg": ["slow_pickle", 0.25]}, {"k": "probe", "what": ["depth", "pid"], "arg": ["slow_pickle", 0.25]}]
     if level < depth_to:
-        sub.append(_nest_chain(rng, depth_to, ctxs, timeouts, fork_at, level + 1))
+        sub.append(_nest_chain(rng, depth_to, ctxs, timeouts, fork_at, level + 1, variants))
         sub.append({"k": "probe", "what": ["depth", "pid"]})
         if rng.random() < 0.4:
             sub.append({"k": "sleep", "d": 0.02})
-    return {"k": "nested", "kind": kind, "kw": kw, "sub": sub, "then": "wait", "shutdown": kind == "plain"}
+    spec = {"k": "nested", "kind": kind, "kw": kw, "sub": sub, "then": "wait", "shutdown": kind == "plain"}
+    if variants and rng.random() < 0.4:
+        spec["via_thread"] = True
+    if fork_at == level and variants and rng.random() < 0.5:
+        # fork requested implicitly: loky's process-wide default start method, no explicit context
+        spec["kind"] = "plain"
+        spec["kw"] = {k: v for k, v in kw.items() if k != "context"}
+        spec["default_method"] = "fork"
+    return spec
 
 
 def g_depth(rng):
@@ -698,7 +711,8 @@ def g_depth(rng):
     kw = {"max_workers": rng.randint(1, 2), "timeout": tmo}
     ops = [{"op": "new", "ex": "e", "kind": kind, "kw": kw}]
     ops.append({"op": "submit", "ex": "e", "task": {"k": "probe", "what": ["depth", "pid"]}})
-    ops.append({"op": "submit", "ex": "e", "task": _nest_chain(rng, depth_to, ctxs=("loky", "loky", "loky_init_main"), timeouts=(10, 10, 0.1), fork_at=fork_at)})
+    variants = rng.random() < 0.5
+    ops.append({"op": "submit", "ex": "e", "task": _nest_chain(rng, depth_to, ctxs=("loky", "loky", "loky_init_main"), timeouts=(10, 10, 0.1), fork_at=fork_at, variants=variants)})
     ops.append({"op": "wait", "futs": "all"})
     r = rng.random()
     if r < 0.35:
@@ -710,7 +724,7 @@ def g_depth(rng):
         ops += [{"op": "get_reusable", "ex": "e", "kw": dict(kw, max_workers=3)}, {"op": "submit", "ex": "e", "task": {"k": "probe", "what": ["depth", "pid"]}},
                 {"op": "submit", "ex": "e", "task": {"k": "probe", "what": ["depth", "pid"]}}, {"op": "submit", "ex": "e", "task": {"k": "probe", "what": ["depth", "pid"]}}]
     ops += [{"op": "wait", "futs": "all"}, {"op": "shutdown", "ex": "e", "wait": True}]
-    return {"threads": [ops], "end": "return"}, {"gen": "g_depth", "max_depth": maxd, "depth_to": depth_to, "fork_at": fork_at, "kind": kind, "env": env}
+    return {"threads": [ops], "end": "return"}, {"gen": "g_depth", "max_depth": maxd, "depth_to": depth_to, "fork_at": fork_at, "kind": kind, "env": env, "variants": variants}
 
 
 def g_fresh(rng):
@@ -762,7 +776,7 @@ def g_fresh(rng):
             ops.append({"op": "submit", "ex": "e", "task": {"k": "probe", "what": what}})
         ops += [{"op": "keeplists", "ex": "e"}, {"op": "wait", "futs": "all"}]
     ops += [{"op": "wait", "futs": "all"}, {"op": "shutdown", "ex": "e", "wait": True}]
-    return {"threads": [ops], "end": "return"}, {"gen": "g_fresh", "ctx": ctx, "kind": kind, "kw": kw, "init": init_variant, "overlay": overlay}
+    return {"threads": [ops], "end": "return"}, {"gen": "g_fresh", "ctx": ctx, "kind": kind, "kw": kw, "init": init_variant, "overlay": overlay, "as_module": rng.random() < 0.35}
 
 
 ALL_SIGNALS = ["SIGHUP", "SIGINT", "SIGQUIT", "SIGILL", "SIGTRAP", "SIGABRT", "SIGBUS", "SIGFPE", "SIGKILL", "SIGUSR1", "SIGSEGV", "SIGUSR2", "SIGPIPE",
@@ -786,7 +800,15 @@ def g_exitstatus(rng, full=False):
 
 def _lifecycle(rng):
     kind = rng.choice(["plain", "plain", "reusable", "nested"])
-    how = rng.choice(["wait", "nowait", "with", "del", "killed", "broken", "timeout", "resized"])
+    how = rng.choice(["wait", "nowait", "with", "del", "killed", "broken", "timeout", "resized", "spawn_fails"])
+    if how == "spawn_fails":
+        # the worker process object cannot be pickled (unpicklable initargs): every submit raises, nothing may be left open
+        k2 = rng.choice(["plain", "reusable"])
+        body = [{"op": "new", "ex": "x", "kind": k2, "kw": {"max_workers": rng.randint(1, 3), "timeout": 10, "initializer": {"token": "u", "unpicklable": True}}}]
+        for _ in range(rng.randint(1, 3)):
+            body.append({"op": "submit", "ex": "x", "task": t_ok(rng)})
+        body += [{"op": "shutdown", "ex": "x", "wait": True}, {"op": "forget", "ex": ["x"]}]
+        return body, "%s/spawn_fails" % k2
     mw = rng.randint(1, 3)
     tmo = 0.05 if how == "timeout" else rng.choice([None, 10])
     body = []
